@@ -131,7 +131,11 @@ func castNodesWithTag(node Node, tag Tag, t interface{}) interface{} {
 }
 
 func DeleteNodesWithTag(node Node, tag Tag) {
-	for _, n := range node.Nodes() {
+	// DeleteNode modifies the slice returned by Nodes() so we have to iterate
+	// over a copy, otherwise the node after each deleted node is skipped.
+	children := append(Nodes{}, node.Nodes()...)
+
+	for _, n := range children {
 		if n.Tag().Is(tag) {
 			node.DeleteNode(n)
 		}
